@@ -137,6 +137,10 @@ def q1(ctx):
             continue
         r = b.role_of_local(0)
         starts = any(isinstance(x, tuple) and x[0] == "call" and x[1] in ("new", "clone", "collect", "compose_partial", "default", "from_iter") for x in role_walk(r))
+        # ... or hands the job to another builder of the same impl (checked in its own right)
+        top = strip_role(r)
+        if not starts and isinstance(top, tuple) and top[0] == "call" and b.call_at.get(top[4]) is not None and b.call_at[top[4]].callee and b.call_at[top[4]].callee.target in {x.id for x in builders}:
+            starts = True
         n += 1
         ctx.check(starts, "builder-through-api:" + C.fkey(b), "%s builds its result from new()/clone() through the public writers" % C.short(b.id),
                   "%s produces a SlotMap by other means (%s)" % (C.short(b.id), role_str(r)[:80]), where_of(b))
@@ -326,8 +330,9 @@ def visits_all_of(crate, b, param):
 def q3(ctx):
     crate = ctx.lib("default")
     # compose_partial / compose_fresh: every pair of the result is (x, other.get(y)) for a pair (x, y) of self
+    sm_private = {x.id for x in crate.fns() if (x.file or "").endswith("slotmap.rs") and x.kind != "Closure" and x.vis != "pub" and not any(c.callee and c.callee.target == x.id for c in x.all_calls())}
     for name, fresh in (("compose_partial", False), ("compose_fresh", True)):
-        b = m(crate, name)
+        b = mir.inline_view(crate, m(crate, name), depth=2, policy=sm_private - {m(crate, name).id})
         ctx.check(visits_all_of(crate, b, "self"), "iterates-self:" + name, "%s visits every pair of self" % name, "%s does not visit every pair of self" % name, where_of(b))
         pairs = result_pairs(crate, b)
         nget = 0
